@@ -491,17 +491,18 @@ theorem tb_buffer_clear (b : C_rdsparser_buffer) (hu : b.data_used.af.buffer.len
 theorem tb_getS0 (a b : CStr) : getS [a, b] 0 = a := rfl
 theorem tb_getS1 (a b : CStr) : getS [a, b] 1 = b := rfl
 
-/-- `rdsparser_clear` with the list of RadioText buffers made explicit -/
+/-- `rdsparser_clear` with the list of RadioText buffers made explicit: on every modelled field the result is … (a field
+the structure may have gained since — reset here or not — is outside the statement) -/
 theorem tb_clear_eq (r : C_librdsparser) (a b : CStr) (hrt : r.rt = [a, b])
     (hu : r.buffer.data_used.af.buffer.length = 26) (ht : r.buffer.data_temp.af.buffer.length = 26) :
-    c_rdsparser_clear r =
+    SameModelled (c_rdsparser_clear r)
       { r with buffer := ⟨tb_dataCleared, tb_dataCleared, r.buffer.extended_check⟩,
                ps := c_rdsparser_string_clear r.ps,
                rt := [c_rdsparser_string_clear a, c_rdsparser_string_clear b],
                ptyn := c_rdsparser_string_clear r.ptyn, last_rt_flag := -1 } := by
   unfold c_rdsparser_clear
   simp only [tb_buffer_clear _ hu ht, hrt]
-  rfl
+  exact ⟨rfl, rfl, rfl, rfl, rfl, rfl, rfl, rfl, rfl, rfl, rfl, rfl, rfl, rfl, rfl, rfl, rfl, rfl, rfl, rfl⟩
 
 theorem clear_refines (r : C_librdsparser) (hI : CInv r)
     (hclr : ∀ (s : CStr) (cap : Nat), StrOk s cap →
@@ -519,8 +520,9 @@ theorem clear_refines (r : C_librdsparser) (hI : CInv r)
   obtain ⟨a1, a2⟩ := hclr a 64 ha
   obtain ⟨b1, b2⟩ := hclr b 64 hb
   obtain ⟨n1, n2⟩ := hclr r.ptyn 8 hI.ptyn
-  rw [tb_clear_eq r a b hrt hused.2.1 htemp.2.1]
-  constructor
+  have hsm := tb_clear_eq r a b hrt hused.2.1 htemp.2.1
+  rw [hsm.abs_eq]
+  refine ⟨?_, hsm.inv ?_⟩
   · simp only [abs, clearState, absSet, absCbs, tb_getS0, tb_getS1, hrt, tb_absData_cleared, p1, a1, b1, n1,
       p2.2.2.2.1, a2.2.2.2.1, b2.2.2.2.1, n2.2.2.2.1, hI.ps.2.2.2.1, ha.2.2.2.1, hb.2.2.2.1, hI.ptyn.2.2.2.1]
   · exact ⟨tb_dataOk_cleared, tb_dataOk_cleared, hI.ext, p2, rfl, a2, b2, n2, hI.progLen, hI.prog, hI.corrLen,
